@@ -15,6 +15,7 @@
 //   drv_textfuzz --list 1
 //   drv_textfuzz --out F --entry E --batch exh    --budget B [--start K]
 //   drv_textfuzz --out F --entry E --batch seeded --n N     [--start K]
+//   drv_textfuzz --out F --entry E --batch dict             [--start K]   systematic extreme / degenerate arguments
 #include "drv_text_gen.h"
 
 #include <Bpp/App/ApplicationTools.h>
@@ -34,6 +35,7 @@
 #include <Bpp/Text/TextTools.h>
 #include <Bpp/Utils/AttributesTools.h>
 
+#include <cmath>
 #include <functional>
 #include <sstream>
 
@@ -357,14 +359,15 @@ static std::string seedFor(Kind k, Rng& r)
       size_t n = 1 + r.below(4);
       for (size_t i = 0; i < n; ++i)
       {
-        s += (i ? "," : "") + std::to_string(r.range(0, 30));
-        if (r.coin()) s += "-" + std::to_string(r.range(0, 40));
+        s += (i ? "," : "") + (r.chance(1, 6) ? extremeNumber(r) : std::to_string(r.range(0, 30)));
+        if (r.coin()) s += "-" + (r.chance(1, 6) ? extremeNumber(r) : std::to_string(r.range(0, 40)));
       }
       return s;
     }
-    std::string s = "seq(from=" + std::to_string(r.range(0, 5)) + ",to=" + std::to_string(r.range(0, 9));
-    if (r.coin()) s += ",step=" + std::to_string(r.range(0, 3));
-    else s += ",size=" + std::to_string(r.range(0, 6));
+    auto val = [&](long lo, long hi) { return r.chance(1, 4) ? extremeNumber(r) : std::to_string(r.range(lo, hi)); };
+    std::string s = "seq(from=" + val(0, 5) + ",to=" + val(0, 9);
+    if (r.coin()) s += ",step=" + val(-1, 3);
+    else s += ",size=" + val(-1, 6);
     if (r.chance(1, 3)) s += std::string(",scale=") + (r.coin() ? "log" : "10^");
     return s + ")";
   }
@@ -378,13 +381,21 @@ static bool knownTrigger(const std::string& entry, const std::string& s)
 {
   if (entry == "dist.read")
   {
-    // an argument whose value is zero can make the domain of the distribution empty
+    // C16-dist-extreme-parameters: a parameter of extreme magnitude (or a non positive rate / shape / scale)
+    // makes the discretisation loops of the distribution classes run for ever
     for (size_t p = s.find('='); p != std::string::npos; p = s.find('=', p + 1))
     {
       const char* b = s.c_str() + p + 1;
       char* e = nullptr;
       double v = strtod(b, &e);
-      if (e != b && v == 0) return true;
+      if (e == b) continue;
+      size_t k = p;
+      while (k > 0 && (isalnum(static_cast<unsigned char>(s[k - 1])) || s[k - 1] == '_')) --k;
+      std::string key = s.substr(k, p - k);
+      if (key == "n" || key == "p") continue;
+      double a = std::fabs(v);
+      if (!(a <= 1e6) || (a != 0 && a < 1e-6)) return true;
+      if (v <= 0 && (key == "lambda" || key == "tp" || key == "alpha" || key == "beta" || key == "sigma")) return true;
     }
   }
   return false;
@@ -500,6 +511,23 @@ int main(int argc, char** argv)
     forAllStrings(en->alpha, usedLen, [&](const std::string& s) {
       for (int v = 0; v < en->variants; ++v) one(s, v);
     });
+  }
+  else if (batch == "dict")
+  {
+    std::vector<std::string> d;
+    if (en->name == "dist.read") d = dictDistributions();
+    else if (en->name == "nc.getVector") d = dictVectors();
+    else if (en->name == "nc.seqFromString") d = dictSequences();
+    else if (en->name == "iv.readDescription") d = dictIntervals();
+    else if (en->kind == K_NUMBER)
+      for (const auto& v : extremeValues())
+      {
+        d.push_back(v);
+        d.push_back("-" + v);
+        d.push_back(v + "e" + v);
+      }
+    for (const auto& s : d)
+      for (int v = 0; v < en->variants; ++v) one(s, v);
   }
   else if (batch == "probe")
   {
